@@ -11,7 +11,7 @@ RULE = ('all time-only programs of the grammar (roots x scripts over D/EQ/GE/LT/
         'non-trivial = at least two activities have operations ending in the same time step, or an operation '
         'can never resume, or a date is already reached/past when awaited')
 ASSUMPTIONS = [
-    'dates/delays only from {-1,0,1,2,inf} relative to the start time, start in {0,3,-2}',
+    'dates/delays only from {-1,0,1,2,inf} relative to the start time, start in {0,3,-2}; plus a family with fractional values {0.1,0.2,0.3,0.7,0.9,1.1} and start 0.1',
     'at most 3 concurrent activities and 3 operations per script (thorough); 2 and 2 (quick)',
     'oracle: independent arithmetic clock model (vk/clockmodel.py) + VLoop clock/FIFO monitors',
 ]
@@ -87,6 +87,21 @@ def cases(tier):
                     for b in scripts(SMALL, 1, 1):
                         progs.append({'start': st, 'roots': [['a', [['UNTIL', 'u', n1, [['UNTIL', 'v', n2, b], ['D', 1]]],
                                                                     ['INSTANT']]]]})
+    # family D: fractional, non-dyadic dates and delays (float round trips must not move a date)
+    fr_pre = [[['D', 0.2]], [['D', 0.1], ['D', 0.2]], [['GE', 0.3]], []]
+    fr_opts = [{'at': 0.7}, {'at': 0.9}, {'at': 1.1}, {'after': 0.1}, {'after': 0.7}]
+    fr_child = [[['EQ', 0.9]], [['D', 0.1]], [['GE', 1.1]], [['EQ', 0.7], ['D', 0.2]]]
+    fr_other = [[['EQ', 0.9]], [['D', 0.7], ['D', 0.2]], [['GE', 0.3], ['EQ', 1.1]]]
+    for st in STARTS + (0.1,):
+        for p in fr_pre:
+            for o in fr_opts:
+                for c in fr_child:
+                    for other in fr_other:
+                        progs.append({'start': st, 'roots': [['a', p + [['SCOPE', 's', [['DO', 'k1', c, o]]], ['PROBE', 'now']]],
+                                                             ['b', other]]})
+            for n in ([['EQ', 0.9], ['GE', 0.7], ['DELAY', 0.7]]):
+                for b in fr_child:
+                    progs.append({'start': st, 'roots': [['a', p + [['UNTIL', 'u', n, b], ['D', 0.1]]], ['b', fr_other[1]]]})
     # drop programs that are not valid usim programs (start date in the past)
     valid = []
     for p in progs:
